@@ -41,7 +41,10 @@ type action struct {
 	k, v   []byte
 	isNil  bool
 	failed bool
-	scrub  bool // all-zero write / sync following only such writes: not counted
+	// partial: a FAILED write that was short -- the first `partial` bytes of data reached
+	// the file before WriteAt returned (partial, io.EOF); 0 = nothing was written
+	partial int
+	scrub   bool // all-zero write / sync following only such writes: not counted
 	// a failed creation that left the empty, unallocated file behind
 	leftover bool
 }
@@ -75,6 +78,7 @@ type crashFS struct {
 	idsUsed     map[uint64]string
 	dupID       string
 	faultsFired map[string]int
+	writeFaults int            // write faults injected so far
 	maxCreate   uint64         // Create of a larger file fails with ENOSPC (0 = no limit)
 	events      map[string]int // coverage counters
 	// fault modes; in force only while a counted fault is armed (faultIn >= 0):
@@ -298,6 +302,33 @@ func (h *chandle) WriteAt(p []byte, off int64) (int, error) {
 	}
 	a := &action{kind: actWrite, name: h.name, off: off, data: append([]byte(nil), p...), scrub: isAllZero(p)}
 	if !h.fs.record(a) {
+		// The counted write fault has two flavours, chosen deterministically: nothing is
+		// written and a plain error comes back, or -- odd action number, and no unsynced
+		// data in the file that the model could still adopt at a restart -- the first half
+		// of the bytes is written and (n/2, io.EOF) comes back (a short write; any non-nil
+		// error is admissible for an io.WriterAt).  For the model both are AFail (AWrite ..)
+		// without effect on the abstract file: the half batch lies behind the valid chain,
+		// readers never look at it, recovery discards and scrubs it (coq/Seg/FailFacts.v).
+		// A short write OVER an unsynced batch could destroy a batch the model adopts at
+		// the next restart (Model.io leaves a pending batch alone when a write fails), so
+		// that combination is left to the byte-level streams (seg ... E p).
+		h.fs.writeFaults++
+		half := len(p) / 2
+		if len(h.fs.acts)%2 == 1 && len(f.pending) == 0 && half > 0 {
+			a.partial = half
+			end := int(off) + half
+			if end > len(f.data) {
+				f.data = append(f.data, make([]byte, end-len(f.data))...)
+			}
+			copy(f.data[off:], p[:half])
+			f.onlyScrub = false
+			f.pending = append(f.pending, pwrite{off, a.data[:half]})
+			if h.fs.events == nil {
+				h.fs.events = map[string]int{}
+			}
+			h.fs.events["short_write_faults"]++
+			return half, io.EOF
+		}
 		return 0, errInjected
 	}
 	end := int(off) + len(p)
@@ -506,6 +537,15 @@ func (c *crashFS) imageAt(k int, keepFile, keepBatch map[string]bool, tornMask f
 			if a.leftover {
 				r.files[a.name] = &cfile{}
 				r.noteCreated(a.name)
+			}
+			if f := r.files[a.name]; a.kind == actWrite && a.partial > 0 && f != nil {
+				end := int(a.off) + a.partial
+				if end > len(f.data) {
+					f.data = append(f.data, make([]byte, end-len(f.data))...)
+				}
+				copy(f.data[a.off:], a.data[:a.partial])
+				f.onlyScrub = false
+				f.pending = append(f.pending, pwrite{a.off, a.data[:a.partial]})
 			}
 			continue
 		}
